@@ -94,7 +94,8 @@ def stack_monitor(ctx, env, program, detail):
             if ok:
                 had, old = top[2], top[3]
                 if tag == "scratch_set":
-                    ctx.check(had and e[3] is old or (had and e[3] == old),
+                    ctx.check(had and (e[3] is old or (type(e[3]) in (int, str, bool, type(None)) and type(old) is type(e[3])
+                                                       and e[3] == old)),
                               "patch.undo-restores-previous-value",
                               lambda: {"attr": attr, "restored": e[3], "previous": old, "had": had})
                 else:
@@ -132,7 +133,14 @@ def x_prog(ctx, case):
     log = recorders.Log()
     runner = programs.runner_factory_for(case.get("runner"))
     the_case = programs.build_case(program, env, runner)
-    initial = dict(program.get("scratch", {}), prop="prop-default")
+    initial = {k: (programs.SPECIAL_VALUES.get(v, v) if isinstance(v, str) else v)
+               for k, v in program.get("scratch", {}).items()}
+    initial["prop"] = "prop-default"
+
+    def same(a, b):
+        # (identity first: some initial values have an __eq__ of their own)
+        return a.keys() == b.keys() and all(a[k] is b[k] or (type(a[k]) is type(b[k]) and not isinstance(
+            a[k], tuple(type(v) for v in programs.SPECIAL_VALUES.values())) and a[k] == b[k]) for k in a)
     histories = []
     nontrivial = False
     for attempt in range(3):
@@ -164,10 +172,10 @@ def x_prog(ctx, case):
                   lambda: {"left": repr(the_case._cleanups), **detail()})
         snap = env.scratch.snapshot()
         if env.tags("patch"):
-            ctx.check(snap == initial and all(snap[k] is initial[k] for k in snap if k in initial and k != "prop"),
+            ctx.check(same(snap, initial) and all(snap[k] is initial[k] for k in snap if k in initial and k != "prop"),
                       "patch.restored", lambda: {"after": snap, "before": initial, **detail()})
         else:
-            ctx.check(snap == initial, "scratch.untouched", detail)
+            ctx.check(same(snap, initial), "scratch.untouched", detail)
         # addOnException handlers registered by a stage stay registered on the instance (they are
         # not cleanups), so their calls are not part of the stage/cleanup sequence compared here
         outcome_details = [sorted((e.payload or {}).get("details") or {}) for e in log.events
